@@ -688,10 +688,12 @@ func isSafeForReverseSuffix(re *syntax.Regexp) bool {
 		// 1. Reverse NFA mixed-edge bug — fixed in v0.12.9 (fillMixedState)
 		// 2. Find() rightmost semantics — fixed: non-matchStartZero uses
 		//    bytes.Index (leftmost) instead of LastIndex (rightmost)
-		// Check for internal anchors (^ or $ not at expected positions)
-		for i := 1; i < len(re.Sub)-1; i++ {
+		// Check for anchors (^, $, \A, \z) ANYWHERE, including the first and the last
+		// element (`$.*b`, `(?:^){2}a`, `.*(^foo|bar)`): the reverse NFA treats look
+		// assertions as epsilon, so the reverse scan cannot verify them.
+		for i := 0; i < len(re.Sub); i++ {
 			if containsAnchor(re.Sub[i]) {
-				return false // Internal anchor - not safe
+				return false // Anchor - not safe
 			}
 		}
 		return true
